@@ -388,6 +388,6 @@ fn main() {
     let check = Check::new("C08", "exploration");
     check.rule("operand pairs from int/float boundary pools (2^53+-1, i64 extremes vs neighbouring floats, +-0, fractional, +-inf; NaN excluded), 3/6 of pairs are an integer against the float at/next to its value; operands as field-vs-field, field-vs-literal, literal-vs-field; every pair is judged for all of < <= > >= in .where, .emit, .having (after last()), .pattern through the Engine API and through eval_filter_expr / eval_binary_op directly; oracle = exact order via i128/fraction decomposition; non-trivial = case has a mixed int/float pair");
     check.assume("exact oracle in the harness (trunc/fract decomposition); last() aggregate returns the operand unchanged; VPL literal rendering round-trips (checked: unparsable program = discard)");
-    check.explore("contexts", strat, 1_500, 40_000, run);
+    check.explore("contexts", strat, 4_000, 80_000, run);
     check.finish();
 }
